@@ -102,6 +102,12 @@ func hostileTx(r *rng.R, s *apphist.Sim, valid []byte) []byte {
 				pm.Type = []int32{-1, 0, 9, 100, 1<<31 - 1, -1 << 31, int32(r.Range(1, 8))}[r.Intn(7)]
 			case 6:
 				pm.XPayload = r.Bytes(r.Intn(80))
+				if r.Chance(40) {
+					// an otherwise well-formed typed transaction whose payload bytes are EMPTY (the handlers of SETDOC and
+					// UNSTAKING rely on the decoder always giving a typed transaction its payload object)
+					pm.XPayload = nil
+					pm.Type = []int32{ctrlertypes.TRX_SETDOC, ctrlertypes.TRX_UNSTAKING, ctrlertypes.TRX_WITHDRAW, ctrlertypes.TRX_VOTING, ctrlertypes.TRX_PROPOSAL, ctrlertypes.TRX_CONTRACT}[r.Intn(6)]
+				}
 			case 7:
 				pm.Sig = hostileBytes(r, []int{0, 1, 64, 65, 66, 130}[r.Intn(6)])
 			case 8:
